@@ -113,13 +113,13 @@ Definition as_owner (s : oset) : owner :=
 
 Definition spec_key (s : oset) (p : pobj) : okey := desired_key (as_owner s) p.
 
-(** ObjectDuplicate.Check: compares the keys as written (namespace not defaulted). *)
-Definition written_key (p : pobj) : okey := {| k_gk := po_gk p; k_ns := po_ns p; k_name := po_name p |}.
-Fixpoint dup_count (seen : list okey) (ps : list pobj) : nat :=
-  match ps with
+(** ObjectDuplicate.Check on the phases with the namespace default applied
+    (objectsetphases_reconciler.go phasesWithDefaultedNamespace): counts repeated object identities. *)
+Fixpoint dup_count (seen : list okey) (ks : list okey) : nat :=
+  match ks with
   | [] => O
-  | p :: r => if existsb (okey_eqb (written_key p)) seen then S (dup_count seen r)
-              else dup_count (written_key p :: seen) r
+  | k :: r => if existsb (okey_eqb k) seen then S (dup_count seen r)
+              else dup_count (k :: seen) r
   end.
 Definition all_objects (s : oset) : list pobj := flat_map ph_objects (os_phases s).
 
@@ -379,7 +379,7 @@ Section Pass.
           let '(sw'', _, ok) := update_status sw' m' in
           (sw'', evs ++ [status_ev m' ok], if ok then SDone true else SError) in
         (* slices are not part of this model: phases carry their objects inline *)
-        if Nat.ltb 0 (dup_count [] (all_objects mem1)) then fail_with sw1 (evs0 ++ evs1) mem1 RPreflightError else
+        if Nat.ltb 0 (dup_count [] (map (spec_key mem1) (all_objects mem1))) then fail_with sw1 (evs0 ++ evs1) mem1 RPreflightError else
         let ow := as_owner mem1 in
         let prev := lookup_prev (sw_sets sw1) mem1 in
         let '(w2, pevs, pr) := reconcile_phases (sw_w sw1) ow prev (filter (fun ph => negb (ph_class ph)) (os_phases mem1)) [] in
